@@ -47,7 +47,7 @@ Definition parse_op (tok : bytes) : option op :=
 (* ---------- printing ---------- *)
 Definition k16 (k : N) : bytes := to_hex (n2be 8 k).
 Definition bar : bytes := str "|".
-Definition BLOB_HEX_MAX : N := 55 * 80.
+Definition BLOB_HEX_MAX : N := 55 * 200.
 
 Definition blob_text (s : mblob) : bytes :=
   let b := bytes_of_blocks (blocks s) in
@@ -150,7 +150,9 @@ Definition reload_equiv (s : mblob) : bool :=
   | _ => false
   end.
 
-Definition link_flag (o : op) (s : mblob) (m : kvmap) (x : res (option N)) (s' : mblob) : byte * kvmap :=
+(* [deep]: also evaluate the hash part of the invariant (every clean internal hash recomputed): done after
+   hashing operations and after the last operation; in between it follows from the L1 theorems *)
+Definition link_flag (deep : bool) (o : op) (s : mblob) (m : kvmap) (x : res (option N)) (s' : mblob) : byte * kvmap :=
   match op_to_top s o with
   | None => (x53, m)
   | Some t =>
@@ -166,7 +168,7 @@ Definition link_flag (o : op) (s : mblob) (m : kvmap) (x : res (option N)) (s' :
               | None => false
               end
               && Bool.eqb ok1 (is_ok x) && Bool.eqb ok1 (fst (step0 t m))
-              && inv_b sha256 s' && reload_equiv s' in
+              && inv_b s' && (negb deep || wf_b sha256 s') && reload_equiv s' in
             ((if good then x61 else x58), m')
         | None => (x58, m')
         end
@@ -176,20 +178,21 @@ Definition link_flag (o : op) (s : mblob) (m : kvmap) (x : res (option N)) (s' :
 Fixpoint run_hist (toks : list bytes) (s : mblob) (m : kvmap) (tainted : bool) (outs : list bytes) (flags : bytes)
   : list bytes * bytes :=
   match toks with
-  | [] => (rev outs, rev flags)
+  | [] => (fast_rev outs, fast_rev flags)
   | tok :: r =>
       match tok with
       | [] => run_hist r s m tainted outs flags
       | _ =>
           match parse_op tok with
-          | None => (rev (str "ERR-BAD-OP" :: outs), rev flags)
+          | None => (fast_rev (str "ERR-BAD-OP" :: outs), fast_rev flags)
           | Some o =>
               let '(x, s') := step2 sha256 o s in
-              if stops x then (rev (res_text x :: outs), rev flags)
+              if stops x then (fast_rev (res_text x :: outs), fast_rev flags)
               else
                 let line := res_text x ++ bar ++ blob_text s' ++ bar ++ kv_text s' ++ bar ++ integrity_text s'
                             ++ (match o with OHash => bar ++ hash_report s' | _ => [] end) in
-                let '(f, m') := if tainted then (x2e, m) else link_flag o s m x s' in
+                let '(f, m') := if tainted then (x2e, m)
+                                else link_flag (match o, r with OHash, _ => true | _, [] => true | _, _ => false end) o s m x s' in
                 let tainted' := tainted || byte_eqb f x4b || byte_eqb f x53 in
                 run_hist r s' m' tainted' (line :: outs) (f :: flags)
           end
